@@ -55,6 +55,10 @@ XalanDOMStringCache::~XalanDOMStringCache()
 XalanDOMString&
 XalanDOMStringCache::get()
 {
+    // release() puts the string on the available list, and is called
+    // from destructors, so make sure it will not have to allocate.
+    m_availableList.reserve(m_availableList.size() + m_busyList.size() + 1);
+
     if (m_availableList.empty() == true)
     {
         XalanDOMString&     theString = m_allocator.create();
